@@ -23,13 +23,18 @@
 (*      value it captured before its cache latency into L1 even if a put of  *)
 (*      the key landed meanwhile (the put invalidated L2 and wrote L1).      *)
 (*      Design without it: no promotion if the tier no longer holds k.       *)
-(* L1.put() writes the value to the shared backing store a second time one   *)
-(* write latency after the first write (both tiers are write-through stores   *)
-(* over the same KVStore); the put completes after that second write, so the  *)
-(* late write lies inside the put's own interval (modelled, not a deviation). *)
+(*  "l1_put_rewrites_backing_late"  put() ends with L1.put(), a write-through *)
+(*      CachedStore.put over the SAME backing store: the value is written a  *)
+(*      second time one write latency after the first write.  When two puts  *)
+(*      overlap, the older put's second write lands after the newer put's    *)
+(*      first write and rolls the backing store back until the newer put's   *)
+(*      own second write; a fetch in that window caches the older value in   *)
+(*      L1, which keeps serving it after the newer put completed.            *)
+(*      Design without it: L1 is updated (_cache_put) without a second write.*)
 EXTENDS Cache
 
 T1 == "tier_promotion_overwrites_newer_write"
+T2 == "l1_put_rewrites_backing_late"
 
 TierG(g, i) == [K |-> g.K, cap |-> IF i = 1 THEN g.cap1 ELSE g.cap2, wt |-> TRUE, pol |-> g.pol, par |-> g.par,
                 dev |-> {}]
@@ -83,10 +88,12 @@ MSeg(g, s, op, now) ==
       [] op.kind = "put" /\ op.st = "new" -> {MOut(s, [op EXCEPT !.st = "bput"], FALSE, 0, "WL")}
       [] op.kind = "put" /\ op.st = "bput" ->
             LET s1 == InvBoth(g, [s EXCEPT !.back[k] = op.v, !.gen[k] = @ + 1], k)
-            IN { MOut([s1 EXCEPT !.t1 = x], [op EXCEPT !.st = "l1bput"], FALSE, 0, "WL")
+            IN { IF T2 \in g.dev THEN MOut([s1 EXCEPT !.t1 = x], [op EXCEPT !.st = "l1bput"], FALSE, 0, "WL")
+                 ELSE MOut([s1 EXCEPT !.t1 = x], op, TRUE, 0, "-")
                  : x \in CachePut(TierG(g, 1), s1.t1, k, op.v, now) }
       [] op.kind = "put" /\ op.st = "l1bput" ->
-            {MOut([s EXCEPT !.back[k] = op.v], op, TRUE, 0, "-")}
+            \* the late second write: if it changes the backing store it rolls a newer put back
+            {MOut(IF s.back[k] # op.v THEN MTaint([s EXCEPT !.back[k] = op.v], k, T2) ELSE s, op, TRUE, 0, "-")}
       [] op.kind = "del" /\ op.st = "new" -> {MOut(InvBoth(g, s, k), [op EXCEPT !.st = "bdel"], FALSE, 0, "DL")}
       [] op.kind = "del" /\ op.st = "bdel" ->
             {MOut([s EXCEPT !.back[k] = 0, !.acc[k] = 0], op, TRUE, 1, "-")}
